@@ -5,26 +5,29 @@ import CrabProofs.Props.C03
 /-!
 # C15 — the region / reference domain is sound for loads and reference queries
 
+The models follow the tree AFTER the six C15 fixes (70510e9 .. f6afed4 in /repo).
 What is proved here (all statements for every region, reference, value and every base domain
 satisfying the laws of `Rgn.Base`):
 
-* `small_range` (the per-region reference counter, `lib/small_range.cpp`): the lattice
-  operations are total and sound for both readings of the counter; `increment`, `meet` and
-  `operator<=` are NOT sound for the reading the region domain relies on (number of references):
-  full statements, `_partial` theorems and `_counterexample`s.
+* `small_range` (the per-region reference counter, `lib/small_range.cpp`): join / widening / meet /
+  increment are total and sound; `increment` is now sound for the reading the region domain relies
+  on (number of references), `operator<=` is total and sound (fix 733b6ba).  One statement remains
+  false for that reading and stays as `_Statement` / `_partial` / `_counterexample`: `meet`
+  (`1(V1) & 1(V2) = bottom`); it is not reachable from `region_domain` answers of CFG programs: see
+  the note at the theorem.
 * the `RegionSmash` functor (`CrabModel/Dom/RegionSmash.lean`, the smashing rule of
-  `region_domain`: one ghost variable per region, strong update / strong read only while the
-  counter is 0 or 1(V), first store strong) preserves the concretisation `Rgn.Gamma` against the
-  concrete heap semantics `CrabModel/Dom/RegionSem.lean` for `ref_load` (the loaded variable
-  contains every value a concrete execution can load from a written cell), `ref_store`,
-  `ref_gep`, `region_copy`, `ref_free`, join and widening; `ref_make` / `ref_gep` only under the
-  hypotheses that exclude the two defects of the pinned code (counter `1(r)` incremented with the
-  same `r`; address of the assigned reference not forgotten), with counterexamples.
+  `region_domain`) preserves the concretisation `Rgn.Gamma` against the concrete heap semantics
+  `CrabModel/Dom/RegionSem.lean` for `ref_make`, `ref_gep` (constant offset), `ref_load` (the loaded
+  variable contains every value a concrete execution can load from a written cell), `ref_store`,
+  `region_copy`, `ref_free`, join and widening — all unconditional now.
 * `is_null_ref` and `get_allocation_sites` answers hold in every state of the concretisation.
+* the behaviour before the fixes survives only in `SmallRange.incrementOld` / `SmallRange.leqOld` /
+  `RS.refMakeOld`, with the
+  counterexamples that motivated the fixes (`*_old_counterexample`).
 
 Not covered by the proofs (compared by the history harness only): unknown regions / region_cast,
-offset-size ghost variables, tags, deallocation classes, ref_assume / select_ref, the ghost
-variable manager's renaming, the trivial bottom/top shortcuts of the lattice operations.
+offset-size ghost variables, tags, deallocation classes, ref_assume / select_ref, symbolic gep
+offsets, the ghost variable manager's renaming, the trivial bottom/top shortcuts.
 -/
 open Crab Crab.Rgn Crab.Dom
 
@@ -55,19 +58,29 @@ theorem C15.smallrange_meetV_sound (a b r : SmallRange) (S : Nat → Prop) (ha :
 theorem C15.smallrange_incrementV_sound (a : SmallRange) (S : Nat → Prop) (v : Nat) (h : SmallRange.γV a S) :
     SmallRange.γV (SmallRange.increment a v) (fun x => S x ∨ x = v) := SmallRange.incrementV_sound h
 
-/-- the statement the region domain needs: an increment counts one more object -/
-def C15.smallrange_increment_Statement : Prop :=
-  ∀ (a : SmallRange) (n v : Nat), SmallRange.γ a n → SmallRange.γ (SmallRange.increment a v) (n + 1)
+/-- **increment** counts one more object (the statement the region domain needs) -/
+theorem C15.smallrange_increment_sound (a : SmallRange) (n v : Nat) (h : SmallRange.γ a n) :
+    SmallRange.γ (SmallRange.increment a v) (n + 1) := SmallRange.increment_sound h
 
-theorem C15.smallrange_increment_partial (a : SmallRange) (n v : Nat) (hne : a ≠ SmallRange.one v)
-    (h : SmallRange.γ a n) : SmallRange.γ (SmallRange.increment a v) (n + 1) :=
-  SmallRange.increment_sound_partial hne h
+/-- the same statement for the increment of the tree before fix 3175bba -/
+def C15.smallrange_increment_old_Statement : Prop :=
+  ∀ (a : SmallRange) (n v : Nat), SmallRange.γ a n → SmallRange.γ (SmallRange.incrementOld a v) (n + 1)
 
-/-- `1(v)` incremented with the same `v` stays `1(v)` although two objects are counted -/
-theorem C15.smallrange_increment_counterexample : ¬ C15.smallrange_increment_Statement := by
+/-- old behaviour: `1(v)` incremented with the same `v` stayed `1(v)` although two objects are counted -/
+theorem C15.smallrange_increment_old_counterexample : ¬ C15.smallrange_increment_old_Statement := by
   intro h
   exact absurd (h (SmallRange.one 0) 1 0 (by decide)) (by decide)
 
+/-- old and fixed increment differ only there -/
+theorem C15.smallrange_increment_old_eq (a : SmallRange) (v : Nat) (hne : a ≠ SmallRange.one v) :
+    SmallRange.incrementOld a v = SmallRange.increment a v := SmallRange.incrementOld_eq hne
+
+/-- OPEN (small_range alone, not reachable from region_domain answers): the meet is not a lower
+    bound for the counter reading.  `region_domain` only meets counters inside `m_rgn_env` of two
+    values; `1(V1)` and `1(V2)` with `V1 ≠ V2` for the same region need the single reference of
+    the region to have been created by `ref_make`/`ref_gep` with two different assigned variables,
+    i.e. by two different statements, hence two different allocation sites / addresses: no concrete
+    state lies in both operands, and bottom is the exact meet there (`smallrange_meetV_sound`). -/
 def C15.smallrange_meet_Statement : Prop :=
   ∀ (a b r : SmallRange) (n : Nat), SmallRange.γ a n → SmallRange.γ b n → SmallRange.meet a b = some r → SmallRange.γ r n
 
@@ -80,17 +93,26 @@ theorem C15.smallrange_meet_counterexample : ¬ C15.smallrange_meet_Statement :=
   intro h
   exact absurd (h (SmallRange.one 0) (SmallRange.one 1) SmallRange.bottom 1 (by decide) (by decide) (by decide)) (by decide)
 
-def C15.smallrange_leq_Statement : Prop :=
-  ∀ (a b : SmallRange) (n : Nat), SmallRange.leq a b = some true → SmallRange.γ a n → SmallRange.γ b n
+/-- **operator<=** never reaches CRAB_ERROR and answers yes only for included values (after fix 733b6ba) -/
+theorem C15.smallrange_leq_total (a b : SmallRange) : (SmallRange.leq a b).isSome = true := SmallRange.leq_isSome a b
 
-theorem C15.smallrange_leq_partial (a b : SmallRange) (n : Nat) (hb : b ≠ SmallRange.bottom)
-    (h : SmallRange.leq a b = some true) (ha : SmallRange.γ a n) : SmallRange.γ b n :=
-  SmallRange.leq_sound_partial hb h ha
+theorem C15.smallrange_leq_sound (a b : SmallRange) (n : Nat) (h : SmallRange.leq a b = some true)
+    (ha : SmallRange.γ a n) : SmallRange.γ b n := SmallRange.leq_sound h ha
 
-/-- `0 <= bottom` answers yes -/
-theorem C15.smallrange_leq_counterexample : ¬ C15.smallrange_leq_Statement := by
+theorem C15.smallrange_leqV_sound (a b : SmallRange) (S : Nat → Prop) (h : SmallRange.leq a b = some true)
+    (ha : SmallRange.γV a S) : SmallRange.γV b S := SmallRange.leqV_sound h ha
+
+/-- the same statement for `operator<=` of the tree before fix 733b6ba -/
+def C15.smallrange_leq_old_Statement : Prop :=
+  ∀ (a b : SmallRange) (n : Nat), SmallRange.leqOld a b = some true → SmallRange.γ a n → SmallRange.γ b n
+
+/-- old behaviour: `0 <= bottom` answered yes (and `1(V) <= bottom` raised CRAB_ERROR) -/
+theorem C15.smallrange_leq_old_counterexample : ¬ C15.smallrange_leq_old_Statement := by
   intro h
   exact absurd (h SmallRange.zero SmallRange.bottom 0 (by decide) (by decide)) (by decide)
+
+example : SmallRange.leqOld (SmallRange.one 3) SmallRange.bottom = none := by decide
+example : SmallRange.leq (SmallRange.one 3) SmallRange.bottom = some false := by decide
 
 example : SmallRange.γ (SmallRange.increment (SmallRange.zeroOrOne 3) 4) 2 := by decide
 example : SmallRange.sameVar (SmallRange.one 2) (SmallRange.zeroOrOne 2) = true := by decide
@@ -121,16 +143,15 @@ theorem C15.regionsmash_store_sound {B : Type} (D : Base B) (A : RS B) (σ σ' :
     (tags : List Nat) (hG : Gamma D A σ) (hs : σ.refStore r g (v.eval σ) tags = some σ') :
     Gamma D (A.refStore D r g v) σ' := store_sound hG hs
 
-/-- the statement for `ref_make` -/
-def C15.regionsmash_make_Statement : Prop :=
-  ∀ (B : Type) (D : Base B) (A : RS B) (σ σ' : State) (r g site : Nat) (size : Int),
-    Gamma D A σ → σ.refMake r g size site = some σ' → Gamma D (A.refMake r g site) σ'
+/-- **ref_make** (fresh block, counter incremented, ghost variables of the reference forgotten) -/
+theorem C15.regionsmash_make_sound {B : Type} (D : Base B) (A : RS B) (σ σ' : State) (r g site : Nat) (size : Int)
+    (hG : Gamma D A σ) (hs : σ.refMake r g size site = some σ') : Gamma D (A.refMake D r g site) σ' :=
+  make_sound hG hs
 
-theorem C15.regionsmash_make_partial {B : Type} (D : Base B) (A : RS B) (σ σ' : State) (r g site : Nat) (size : Int)
-    (hcnt : A.cnt g ≠ SmallRange.one r)
-    (hfree : ∀ ρ k, D.γ A.base ρ → D.γ A.base (ρ.set (.ref r) k))
-    (hG : Gamma D A σ) (hs : σ.refMake r g size site = some σ') : Gamma D (A.refMake r g site) σ' :=
-  make_sound_partial hG hs hcnt hfree
+/-- the statement for the `ref_make` of the tree before the fixes 078ec97 / 3175bba -/
+def C15.regionsmash_make_old_Statement : Prop :=
+  ∀ (B : Type) (D : Base B) (A : RS B) (σ σ' : State) (r g site : Nat) (size : Int),
+    Gamma D A σ → σ.refMake r g size site = some σ' → Gamma D (A.refMakeOld r g site) σ'
 
 /-- the trivial base domain (one value, every valuation) satisfies the laws -/
 def C15.unitBase : Base Unit where
@@ -204,9 +225,9 @@ theorem C15.cex_gamma : Gamma C15.unitBase C15.cexAbs C15.cexState := by
     · subst hg; simp [C15.cexState, Mem.read, Mem.cell] at h
     · simp [C15.cexState, hg, Mem.read, Mem.cell, Mem.empty] at h
 
-/-- `r0 := ref_make(g0)` a second time: the region now has two references (the first one may still
-    be aliased) but the counter stays `1(r0)` -/
-theorem C15.regionsmash_make_counterexample : ¬ C15.regionsmash_make_Statement := by
+/-- old behaviour: `r0 := ref_make(g0)` a second time: the region now has two references (the first
+    one may still be aliased) but the counter stayed `1(r0)` -/
+theorem C15.regionsmash_make_old_counterexample : ¬ C15.regionsmash_make_old_Statement := by
   intro h
   have hs : C15.cexState.refMake 0 0 8 1 = some
       (({ C15.cexState with blocks := (1, 2000, 8) :: C15.cexState.blocks }.setRef 0 (.ptr ⟨0, 1, 2000⟩) []).setMem 0
@@ -214,14 +235,14 @@ theorem C15.regionsmash_make_counterexample : ¬ C15.regionsmash_make_Statement 
     simp [State.refMake, State.blockOf, C15.cexState]
   have hG := h Unit C15.unitBase C15.cexAbs C15.cexState _ 0 0 1 8 C15.cex_gamma hs
   have hc := hG.count 0
-  simp [RS.refMake, C15.cexAbs, updN, SmallRange.increment, State.setMem, State.setRef, upd, C15.cexState,
+  simp [RS.refMakeOld, C15.cexAbs, updN, SmallRange.incrementOld, State.setMem, State.setRef, upd, C15.cexState,
     Mem.addMember, SmallRange.γ] at hc
 
-/-- the statement for `ref_make` once the counter defect is excluded -/
-def C15.regionsmash_make_addr_Statement : Prop :=
+/-- the statement for the old `ref_make` once the counter defect is excluded -/
+def C15.regionsmash_make_old_addr_Statement : Prop :=
   ∀ (B : Type) (D : Base B) (A : RS B) (σ σ' : State) (r g site : Nat) (size : Int),
     A.cnt g ≠ SmallRange.one r →
-    Gamma D A σ → σ.refMake r g size site = some σ' → Gamma D (A.refMake r g site) σ'
+    Gamma D A σ → σ.refMake r g size site = some σ' → Gamma D (A.refMakeOld r g site) σ'
 
 /-- every reference null, nothing allocated -/
 def C15.nullState : State where
@@ -258,9 +279,9 @@ theorem C15.null_gamma : Gamma cstBase C15.nullAbs C15.nullState := by
     · rename_i hx0; cases hx; subst hx0; simp [valOf, C15.nullState, RefVal.toInt]
     · cases hx
 
-/-- `assume(r0 == NULL); r0 := ref_make(g0)`: the base value still says "r0 is null" (the address
-    ghost variable of the assigned reference is not forgotten) -/
-theorem C15.regionsmash_make_addr_counterexample : ¬ C15.regionsmash_make_addr_Statement := by
+/-- old behaviour: `assume(r0 == NULL); r0 := ref_make(g0)`: the base value still said "r0 is null"
+    (the address ghost variable of the assigned reference was not forgotten) -/
+theorem C15.regionsmash_make_old_addr_counterexample : ¬ C15.regionsmash_make_old_addr_Statement := by
   intro h
   have hs : C15.nullState.refMake 0 0 8 0 = some
       (({ C15.nullState with blocks := (0, 1000, 8) :: C15.nullState.blocks }.setRef 0 (.ptr ⟨0, 0, 1000⟩) []).setMem 0
@@ -269,17 +290,18 @@ theorem C15.regionsmash_make_addr_counterexample : ¬ C15.regionsmash_make_addr_
   have hG := h CB cstBase C15.nullAbs C15.nullState _ 0 0 0 8 (by simp [C15.nullAbs]) C15.null_gamma hs
   obtain ⟨c, hc⟩ := sel_exists (({ C15.nullState with blocks := (0, 1000, 8) :: C15.nullState.blocks }.setRef 0 (.ptr ⟨0, 0, 1000⟩) []).setMem 0
         ((C15.nullState.mems 0).addMember 1000))
-  have hb := hG.base c 0 hc (.ref 0) 0 (by simp [RS.refMake, C15.nullAbs])
+  have hb := hG.base c 0 hc (.ref 0) 0 (by simp [RS.refMakeOld, C15.nullAbs])
   simp [valOf, State.setMem, State.setRef, upd, RefVal.toInt] at hb
 
-/-- the answer of the model in that state: "definitely null" for a freshly allocated reference -/
-example : (C15.nullAbs.refMake 0 0 0).isNullRef cstBase 0 = some true := by decide
+/-- the answer of the old model in that state: "definitely null" for a freshly allocated reference;
+    the fixed `ref_make` answers "unknown" -/
+example : (C15.nullAbs.refMakeOld 0 0 0).isNullRef cstBase 0 = some true := by decide
+example : (C15.nullAbs.refMake cstBase 0 0 0).isNullRef cstBase 0 = none := by decide
 
 /-- **ref_gep** with a constant offset -/
-theorem C15.regionsmash_gep_partial {B : Type} (D : Base B) (A : RS B) (σ σ' : State) (r1 g1 r2 g2 : Nat) (k : Int)
-    (hcnt : ¬ (g1 = g2 ∧ k = 0) → A.cnt g2 ≠ SmallRange.one r2)
+theorem C15.regionsmash_gep_sound {B : Type} (D : Base B) (A : RS B) (σ σ' : State) (r1 g1 r2 g2 : Nat) (k : Int)
     (hG : Gamma D A σ) (hs : σ.refGep r1 g1 r2 g2 k = some σ') : Gamma D (A.refGep D r1 g1 r2 g2 k) σ' :=
-  gep_sound_partial hG hs hcnt
+  gep_sound hG hs
 
 /-- **region_copy** between two different region variables -/
 theorem C15.regionsmash_copy_sound {B : Type} (D : Base B) (A : RS B) (σ σ' : State) (l r : Nat) (hlr : l ≠ r)
@@ -321,6 +343,12 @@ example {B : Type} (D : Base B) (d r g x : Nat) :
 example {B : Type} (D : Base B) (d r g : Nat) (k : Int) :
     (Step.trans d ⟨fun A => A.refStore D r g (.cst k), fun σ σ' => σ.refStore r g (.int k) [] = some σ'⟩ :
       Step (RS B) State).Sound (Gamma D) := fun _ _ _ hG hs => store_sound (v := .cst k) hG hs
+example {B : Type} (D : Base B) (d r g site : Nat) (size : Int) :
+    (Step.trans d ⟨fun A => A.refMake D r g site, fun σ σ' => σ.refMake r g size site = some σ'⟩ :
+      Step (RS B) State).Sound (Gamma D) := fun _ _ _ hG hs => make_sound hG hs
+example {B : Type} (D : Base B) (d r1 g1 r2 g2 : Nat) (k : Int) :
+    (Step.trans d ⟨fun A => A.refGep D r1 g1 r2 g2 k, fun σ σ' => σ.refGep r1 g1 r2 g2 k = some σ'⟩ :
+      Step (RS B) State).Sound (Gamma D) := fun _ _ _ hG hs => gep_sound hG hs
 example {B : Type} (D : Base B) (d a b : Nat) :
     (Step.upper d a b (RS.join D) : Step (RS B) State).Sound (Gamma D) := fun _ _ _ h => join_sound h
 
